@@ -90,7 +90,7 @@ static std::string libname_of(int namelen) {
     for (int i = 0; i < namelen; i++) s += (char)('A' + (i * 7 + i / 26) % 26);
     return s;
 }
-static Library build_library(int variant, int ui, int perm, int namelen = 0) {
+static Library build_library(int variant, int ui, int perm, int namelen = 0, int big = 0) {
     Library lib = {};
     lib.init(libname_of(namelen).c_str(), UNITS[ui].unit, UNITS[ui].precision);
     Cell* cells[4];
@@ -156,6 +156,17 @@ static Library build_library(int variant, int ui, int perm, int namelen = 0) {
         FlexPath* fp = mkpath(T3, EndType::Flush, true, Vec2{0, 0});
         set_gds_property(fp->properties, 4, "pp");
         mid->flexpath_array.append(fp);
+    }
+    if (big) {
+        // cells whose structure spans more than one 64 KiB block of the source file (LEAF about 80 kB, MID about 2.4 blocks): a raw
+        // cell is copied from its source file in pieces
+        auto ngon = [](int n, double r, double cx, double cy, Tag t) {
+            Polygon* pg = mkpoly({}, t);
+            for (int i = 0; i < n; i++) pg->point_array.append(Vec2{cx + r * cos(2 * M_PI * i / n), cy + r * sin(2 * M_PI * i / n)});
+            return pg;
+        };
+        for (int i = 0; i < 24 * big; i++) leaf->polygon_array.append(ngon(400, 50 + i, 3 * i, -2 * i, i % 2 ? T1 : T2));
+        for (int i = 0; i < 48 * big; i++) mid->polygon_array.append(ngon(401, 70 + 0.5 * i, -i, 5 * i, i % 3 ? T2 : T3));
     }
     return lib;
 }
@@ -590,10 +601,10 @@ static void run_file(Ctx& cx, const std::string& path, const Expect& ex) {
     full.free_all();
 }
 
-static void run_library(int variant, int ui, int perm, int namelen = 0) {
-    Ctx cx{variant_name(variant) + (namelen > 0 ? fmt("+libname%d", namelen) : std::string()), fmt("variant=%d ui=%d perm=%d name=%d", variant, ui, perm, namelen), UNITS[ui].unit, UNITS[ui].precision, perm, ""};
+static void run_library(int variant, int ui, int perm, int namelen = 0, int big = 0) {
+    Ctx cx{variant_name(variant) + (namelen > 0 ? fmt("+libname%d", namelen) : std::string()) + (big ? "+cells_over_64KiB" : ""), fmt("variant=%d ui=%d perm=%d name=%d big=%d", variant, ui, perm, namelen, big), UNITS[ui].unit, UNITS[ui].precision, perm, ""};
     std::string path = R->scratch + fmt("/c17.%d.gds", (int)getpid());
-    Library src = build_library(variant, ui, perm, namelen);
+    Library src = build_library(variant, ui, perm, namelen, big);
     tm t = FIXED_TM;
     if (src.write_gds(path.c_str(), 199, &t) != ErrorCode::NoError) R->internal_error("corpus write failed");
     Expect ex = {UNITS[ui].unit, UNITS[ui].precision, 1e-14, FIXED_TM, feat_of(variant).absent};
@@ -692,7 +703,7 @@ int main(int argc, char** argv) {
     if (run.replaying()) {
         if (!run.rarg("indep").empty()) {
             for (size_t k = 0; k < g_indep.size(); k++) if (g_indep[k] == run.rarg("indep")) run_indep((int)k);
-        } else run_library(atoi(run.rarg("variant").c_str()), atoi(run.rarg("ui").c_str()), atoi(run.rarg("perm").c_str()), atoi(run.rarg("name").c_str()));
+        } else run_library(atoi(run.rarg("variant").c_str()), atoi(run.rarg("ui").c_str()), atoi(run.rarg("perm").c_str()), atoi(run.rarg("name").c_str()), atoi(run.rarg("big").c_str()));
         return run.finish();
     }
     // quick: the 7 hand-made variants + 5 mixes, structure orders {as listed, reversed, one mixed}; thorough: all 33 variants x all 24 orders
@@ -704,21 +715,23 @@ int main(int argc, char** argv) {
         perms = {0, 23, 9};
     }
     const int nu = 3;
-    struct Job { int variant, ui, perm, indep, namelen; };
+    struct Job { int variant, ui, perm, indep, namelen, big; };
     std::vector<Job> jobs;
-    for (size_t k = 0; k < g_indep.size(); k++) jobs.push_back({0, 0, 0, (int)k, 0});
+    for (size_t k = 0; k < g_indep.size(); k++) jobs.push_back({0, 0, 0, (int)k, 0, 0});
     // library names of every record-length class: 1 and 2 (odd/even padding), around 32/64/256 bytes, 4-digit lengths, records of
     // 2^15 bytes and more (length word with the top bit set) and the longest string a record can hold
     std::vector<int> namelens = {1, 2, 31, 32, 57, 60, 61, 127, 255, 256, 1000, 4001, 32763, 32764, 32766, 40000, 65530};
-    for (int nl : namelens) for (int v : {0, NBASE - 1}) jobs.push_back({v, nl % 3, 0, -1, nl});
-    for (int q : perms) for (int v : variants) for (int u = 0; u < nu; u++) jobs.push_back({v, u, q, -1, 0});
+    for (int nl : namelens) for (int v : {0, NBASE - 1}) jobs.push_back({v, nl % 3, 0, -1, nl, 0});
+    for (int v : {0, NBASE - 1}) for (int q : {0, 23}) jobs.push_back({v, 0, q, -1, 0, 1});   // cells larger than one 64 KiB block
+    if (run.thorough()) for (int v : {0, 5}) jobs.push_back({v, 2, 9, -1, 0, 2});
+    for (int q : perms) for (int v : variants) for (int u = 0; u < nu; u++) jobs.push_back({v, u, q, -1, 0, 0});
     int64_t n = (int64_t)jobs.size();
-    auto body = [&](int64_t i) { const Job& j = jobs[i]; if (j.indep >= 0) run_indep(j.indep); else run_library(j.variant, j.ui, j.perm, j.namelen); };
-    auto describe = [&](int64_t i) { const Job& j = jobs[i]; return j.indep >= 0 ? jobj({{"library", jstr(g_indep[j.indep])}}) : jobj({{"library", jstr(variant_name(j.variant))}, {"unit", jnum(UNITS[j.ui].unit)}, {"cell_order", jint(j.perm)}, {"library_name_length", jint(j.namelen ? j.namelen : 6)}}); };
-    auto replay_of = [&](int64_t i) { const Job& j = jobs[i]; return j.indep >= 0 ? "indep=" + g_indep[j.indep] : fmt("variant=%d ui=%d perm=%d name=%d", j.variant, j.ui, j.perm, j.namelen); };
+    auto body = [&](int64_t i) { const Job& j = jobs[i]; if (j.indep >= 0) run_indep(j.indep); else run_library(j.variant, j.ui, j.perm, j.namelen, j.big); };
+    auto describe = [&](int64_t i) { const Job& j = jobs[i]; return j.indep >= 0 ? jobj({{"library", jstr(g_indep[j.indep])}}) : jobj({{"library", jstr(variant_name(j.variant))}, {"unit", jnum(UNITS[j.ui].unit)}, {"cell_order", jint(j.perm)}, {"library_name_length", jint(j.namelen ? j.namelen : 6)}, {"cells_over_64KiB", jbool(j.big != 0)}}); };
+    auto replay_of = [&](int64_t i) { const Job& j = jobs[i]; return j.indep >= 0 ? "indep=" + g_indep[j.indep] : fmt("variant=%d ui=%d perm=%d name=%d big=%d", j.variant, j.ui, j.perm, j.namelen, j.big); };
     bool ok = parallel_for(run, n, body, describe, replay_of, PFOptions{300, "c17.crash", true});
     run.sample("c17", jobj({{"library", jstr("full_mix, unit 1e-6/1e-9")}, {"sub-cases", jstr("gds_info; gds_units; gds_timestamp; read_gds with each of 2^k+ tag filter sets; target units x 2 tolerances; every non-empty subset of the cells as raw cells via Library::write_gds and GdsWriter::write_rawcell in several write orders; timestamp rewrites")}}));
-    run.bound("c17", fmt("%zu independently encoded files + 17 library-name lengths (1..65530) x 2 variants + %zu content variants x %d unit pairs x %zu structure orders; per file: all tag subsets (+absent tag), %s target units x 2 tolerances, all raw-cell subsets x 2 writers x %s, %s timestamps",
+    run.bound("c17", fmt("%zu independently encoded files + 17 library-name lengths (1..65530) x 2 variants + 4 libraries with cells of more than 64 KiB + %zu content variants x %d unit pairs x %zu structure orders; per file: all tag subsets (+absent tag), %s target units x 2 tolerances, all raw-cell subsets x 2 writers x %s, %s timestamps",
                          g_indep.size(), variants.size(), nu, perms.size(), run.thorough() ? "8" : "5", run.thorough() ? "every write order of the closure (+ map order)" : "4 write orders", run.thorough() ? "7" : "2"), ok, n);
     return run.finish();
 }
